@@ -8,6 +8,7 @@ from .rx import rep as rrep
 from .flow import show
 from .source import AnalysisError
 from .secret_flow import W
+from . import match as M
 
 B64 = cset("./0-9A-Za-z")
 
@@ -36,11 +37,20 @@ def load(ctx):
                 continue
             if t[0] == "compare" and t[1] == ("is",) and t[2][1] == ("const", None):
                 t, pol = t[2][0], not pol  # `re.match(...) is None`
-            if not (t[0] == "call" and t[1][0] == "attr" and t[1][2] in ("match", "fullmatch") and len(t[2]) >= 2 and t[2][0][0] == "const" and t[2][1] == val):
-                raise AnalysisError("classifier test %s is not re.match(<literal>, val)" % show(t))
-            flags = t[2][2] if len(t[2]) > 2 else dict(t[3]).get("flags")
-            if flags is not None:
-                raise AnalysisError("classifier test with flags")
+            pat = mode = None
+            if t[0] == "call" and t[1][0] == "attr" and t[1][2] in ("match", "fullmatch"):
+                recv = t[1][1]
+                if M.is_call(recv) and M.callee_name(recv) == "compile" and len(recv[2]) == 1 and not recv[3] and recv[2][0][0] == "const" and t[2] == (val,) and not t[3]:
+                    pat, mode = recv[2][0][1], t[1][2]  # re.compile(P).match(val)
+                elif len(t[2]) == 2 and not t[3] and t[2][0][0] == "const" and t[2][1] == val:
+                    pat, mode = t[2][0][1], t[1][2]  # re.match(P, val)
+            if pat is None or not isinstance(pat, str):
+                raise AnalysisError("classifier test %s is not re.match(<literal>, val) / re.compile(<literal>).match(val)" % show(t))
+            key = (pat, mode)
+            if key not in tests:
+                tests.append(key)
+            vec[tests.index(key)] = pol
+            continue
             key = (t[2][0][1], t[1][2])
             if key not in tests:
                 tests.append(key)
